@@ -1,7 +1,7 @@
 (** Correspondence cases of the `pfmrl` scenario family.  [RlHist]: one whole rate-limit history on the
     rate-limited chain, replayed by [RateLimit.step]; after every operation that carries an observation the
     model state is compared with what the harness read from the real keeper. *)
-From IBC Require Import Lib.Bytes Lib.CorrLib PfmRl.RateLimit.
+From IBC Require Import Lib.Bytes Lib.BytesFacts Lib.Sha256 Lib.CorrLib PfmRl.RateLimit PfmRl.Pfm.
 Local Open Scope Z_scope.
 
 Definition LimObs := (Z * Z * N * Z * Z * Z)%type.   (* send%, recv%, hours, inflow, outflow, channel value *)
@@ -59,10 +59,109 @@ Definition OB (cls : N) (lims : list (option LimObs)) (ps pr : list (Path * N)) 
 Definition NoOb : option RlObs := None.
 Definition X (o : Op) (ob : option RlObs) : Op * option RlObs := (o, ob).
 
+(** ---------------------------------------------------------------------------------------------
+    [PfmHist]: a line of chains on which routes are run one after the other.  For every route the harness
+    recorded the relayer operations it performed and, at quiescence, every tracked balance, voucher supply, total
+    escrow and in-flight record of every chain.  The model world is advanced by replaying the operations
+    ([Pfm.rrun]); the same observation must also be produced by [Pfm.route_run] (origin transfer + depth-first
+    relay), which is the function the route theorems are about. *)
+Record ChainObs := mkCO {
+  co_bal : list (Acct * Denom * Z); co_sup : list (Denom * Z); co_esc : list (Denom * Z); co_infl : list (N * N) }.
+
+Fixpoint look_bal (l : list (Acct * Denom * Z)) (a : Acct) (d : Denom) : Z :=
+  match l with
+  | [] => 0
+  | (a', d', x) :: l' => if acct_eqb a' a && denom_eqb d' d then x else look_bal l' a d
+  end.
+Fixpoint look_den (l : list (Denom * Z)) (d : Denom) : Z :=
+  match l with
+  | [] => 0
+  | (d', x) :: l' => if denom_eqb d' d then x else look_den l' d
+  end.
+
+Fixpoint seqs_from (s : N) (n : nat) : list N :=
+  match n with O => [] | S n' => s :: seqs_from (N.succ s) n' end.
+Definition infl_keys (cs : CS) : list (N * N) :=
+  flat_map (fun ch => map (fun s => (ch, s))
+                          (filter (fun s => match infl cs ch s with Some _ => true | None => false end)
+                                  (seqs_from 1 (N.to_nat (nseq cs ch))))) (chans cs).
+Definition nn_eqb (a b : N * N) : bool := (fst a =? fst b)%N && (snd a =? snd b)%N.
+Definition nn_subset (a b : list (N * N)) : bool := forallb (fun x => existsb (nn_eqb x) b) a.
+
+Definition chain_ok (accts : list Acct) (denoms : list Denom) (cs : CS) (o : ChainObs) : bool :=
+  forallb (fun a => forallb (fun d => bal cs a d =? look_bal (co_bal o) a d) denoms) accts &&
+  forallb (fun d => (match d_trace d with [] => true | _ => sup cs d =? look_den (co_sup o) d end) &&
+                    (esc cs d =? look_den (co_esc o) d)) denoms &&
+  nn_subset (infl_keys cs) (co_infl o) && nn_subset (co_infl o) (infl_keys cs).
+
+(** universe per chain: (chain, tracked accounts, denominations seen on it) *)
+Definition Univ := list (N * list Acct * list Denom).
+
+Fixpoint world_ok (u : Univ) (w : World) (obs : list ChainObs) : bool :=
+  match u, obs with
+  | [], [] => true
+  | (c, accts, denoms) :: u', o :: obs' => chain_ok accts denoms (w c) o && world_ok u' w obs'
+  | _, _ => false
+  end.
+
+Record RouteSpec := mkRS {
+  rs_chain : N; rs_sender : Acct; rs_chan : N; rs_denom : Denom; rs_amt : Z; rs_recv : option Acct; rs_memo : Memo;
+  rs_hops : list HopOut }.
+Record RouteRec := mkRR { rr_ops : list ROp; rr_route : RouteSpec; rr_obs : list ChainObs }.
+
+Fixpoint look_peer (l : list (N * N * (N * N))) (c ch : N) : N * N :=
+  match l with
+  | [] => (0%N, 0%N)
+  | (c', ch', v) :: l' => if (c' =? c)%N && (ch' =? ch)%N then v else look_peer l' c ch
+  end.
+
+Definition stake : Denom := mkD [] 1.
+Definition init_cs (chs : list N) (bals : list (Acct * Z)) : CS :=
+  mkCS (fun a d => if denom_eqb d stake then
+                     (fix look l := match l with [] => 0 | (a', x) :: l' => if acct_eqb a' a then x else look l' end) bals
+                   else 0)
+       (fun _ => 0) (fun _ => 0) (fun _ _ => None) (fun _ => 1%N) (fun _ _ => None) (fun _ _ => false) (fun _ _ => None) chs.
+Fixpoint init_world (cfg : list (N * list N * list (Acct * Z))) : World :=
+  match cfg with
+  | [] => fun _ => init_cs [] []
+  | (c, chs, bals) :: cfg' => wupd (init_world cfg') c (init_cs chs bals)
+  end.
+
+Fixpoint routes_ok (peer : Peer) (u : Univ) (w : World) (rs : list RouteRec) : bool :=
+  match rs with
+  | [] => true
+  | r :: rs' =>
+      let w1 := rrun peer w (rr_ops r) in
+      let s := rr_route r in
+      let w2 := route_run peer w (rs_chain s) (rs_sender s) (rs_chan s) (rs_denom s) (rs_amt s) (rs_recv s) (rs_memo s) (rs_hops s) in
+      world_ok u w1 (rr_obs r) && world_ok u w2 (rr_obs r) && routes_ok peer u w1 rs'
+  end.
+
+(** monomorphic constructors for the generated files *)
+Definition BL (a : Acct) (d : Denom) (x : Z) : Acct * Denom * Z := (a, d, x).
+Definition DZ (d : Denom) (x : Z) : Denom * Z := (d, x).
+Definition KY (ch s : N) : N * N := (ch, s).
+Definition PR (c ch c' ch' : N) : N * N * (N * N) := (c, ch, (c', ch')).
+Definition UV (c : N) (accts : list Acct) (denoms : list Denom) : N * list Acct * list Denom := (c, accts, denoms).
+Definition CF (c : N) (chs : list N) (bals : list (Acct * Z)) : N * list N * list (Acct * Z) := (c, chs, bals).
+Definition AZ (a : Acct) (x : Z) : Acct * Z := (a, x).
+Definition SA (a : Acct) : option Acct := Some a.
+Definition NA : option Acct := None.
+Definition HO (k : nat) : HopOut := mkH k.
+Definition SH (p c : bytes) : SHop := (p, c).
+
 Inductive Case :=
-| RlHist (num : N) (start dur : Z) (tracked : list Path) (univ : list (Path * N)) (ops : list (Op * option RlObs)).
+| RlHist (num : N) (start dur : Z) (tracked : list Path) (univ : list (Path * N)) (ops : list (Op * option RlObs))
+| PfmHist (peers : list (N * N * (N * N))) (cfg : list (N * list N * list (Acct * Z))) (u : Univ) (init_obs : list ChainObs)
+          (routes : list RouteRec)
+| PfmDenom (port ch cport cch : bytes) (tr : list SHop) (base : bytes) (out : bytes).
 
 Definition check (c : Case) : bool :=
   match c with
   | RlHist num start dur tracked univ ops => replay tracked univ (init_state num start dur) ops
+  | PfmHist peers cfg u init_obs routes =>
+      world_ok u (init_world cfg) init_obs && routes_ok (look_peer peers) u (init_world cfg) routes
+  | PfmDenom port ch cport cch tr base out =>
+      bytes_eqb (s_pfm_denom sha256 port ch cport cch tr base) out &&
+      bytes_eqb (s_recv_denom sha256 port ch cport cch tr base) out
   end.
